@@ -127,6 +127,111 @@ func c06FixedPrograms() []c06Fixed {
 				fmt.Sprintf(`func main1() string { f, p := sm("a", %d); churn(%d); g, q := sm("b", 2); r := f() + g() + *p + *q; *p += "z"; for _, h := range gs { r += h() }; return r + f() }`, p[0], p[1]),
 			}
 		}, [3][]int{{1, 4, 34}, {0, 34}, {0}}},
+		{"addrdepth", func(p [3]int) []string {
+			// &x of a local / parameter of every Env.Ints kind, taken from inside 0..5 runtime block frames
+			// (blocks, for-init frames, loop bodies and if/switch-init frames that declare variables),
+			// no closure captures the frame, the pointer escapes, later calls recycle the frames
+			k := c06AddrKinds[p[0]]
+			conv := func(e string) string {
+				switch k {
+				case "bool":
+					return "(" + e + ")%2 == 0"
+				case "complex128":
+					return "complex(float64(" + e + "), 1)"
+				}
+				return k + "(" + e + ")"
+			}
+			back := "int(*q)"
+			bump := "*q += 3"
+			switch k {
+			case "bool":
+				back, bump = "b2i(*q)", "*q = !*q"
+			case "complex128":
+				back, bump = "int(real(*q)) + 2*int(imag(*q))", "*q += 3"
+			}
+			decls := []string{
+				`func b2i(b bool) int { if b { return 1 }; return 0 }`,
+				fmt.Sprintf(`var gpk []*%s`, k),
+				fmt.Sprintf(`func wr(n int) int { a := %s; b := %s; c, d, e := n + 1, n + 2, n + 3; _ = a; _ = b; return c + d + e }`, conv("n + 40"), conv("n + 41")),
+			}
+			var calls []string
+			nf := 0
+			add := func(param bool, open, close string) {
+				name := fmt.Sprintf("ad%d", nf)
+				nf++
+				if param {
+					decls = append(decls, fmt.Sprintf(`func %sx(x %s, n int) { %s gpk = append(gpk, &x); %s }`, name, k, open, close))
+					decls = append(decls, fmt.Sprintf(`func %s(n int) { %sx(%s, n) }`, name, name, conv("n")))
+				} else {
+					decls = append(decls, fmt.Sprintf(`func %s(n int) { y := n + 1; x := %s; z := n + 2; _ = y; _ = z; %s gpk = append(gpk, &x); %s }`, name, conv("n"), open, close))
+				}
+				calls = append(calls, name)
+			}
+			blk := func(i int) (string, string) {
+				switch p[1] {
+				case 0: // plain blocks
+					return fmt.Sprintf("{ j%d := n + %d; _ = j%d; ", i, i, i), "}; "
+				case 1: // for loops: init frame, every second one with a body frame too
+					if i%2 == 0 {
+						return fmt.Sprintf("for i%d := 0; i%d < 1; i%d++ { ", i, i, i), "}; "
+					}
+					return fmt.Sprintf("{ j%d := n + %d; if j%d >= n { ", i, i, i), "} }; "
+				default: // if / switch with init
+					if i%2 == 0 {
+						return fmt.Sprintf("if t%d := n + %d; t%d >= n { ", i, i, i), "}; "
+					}
+					return fmt.Sprintf("switch s%d := n + %d; { case s%d >= n: w%d := s%d; _ = w%d; ", i, i, i, i, i, i), "}; "
+				}
+			}
+			for d := 0; d <= 5; d++ {
+				open, close := "", ""
+				for i := 0; i < d; i++ {
+					o, c := blk(i)
+					open += o
+					close = c + close
+				}
+				add(false, open, close)
+				add(true, open, close)
+			}
+			// the seed shape: for-init frame + loop body declaring its own variable
+			add(false, "for i := 0; i < 1; i++ { j := i + 1; if j > 0 { ", "} }; ")
+			add(true, "for i := 0; i < 2; i++ { j := i + n; if j >= n { ", "} }; ")
+			var body strings.Builder
+			body.WriteString("func main1() int { h := 0; for r := 0; r < 3; r++ { ")
+			for i, c := range calls {
+				fmt.Fprintf(&body, "%s(r*20 + %d); h += wr(r); ", c, i)
+			}
+			fmt.Fprintf(&body, "h += churn(%d) }; h += rec(34); for k := 0; k < 2; k++ { for _, q := range gpk { h = h*31 + %s; %s } }; return h }", p[2], back, bump)
+			return append(decls, body.String())
+		}, [3][]int{{0, 1, 2, 3, 4, 5, 6, 7, 8}, {0, 1, 2}, {3}}},
+		{"valaddr", func(p [3]int) []string {
+			// addresses of variables that live in Env.Vals (struct, string, slice, func, interface): parameters of
+			// generic functions, receivers, variadic parameters, variables declared from multi-valued calls;
+			// the pointers escape, no closure captures the frames, the same functions run again on recycled frames
+			return []string{
+				`type Pt struct { X, Y int }`,
+				`var gpt []*Pt`,
+				`var gstr []*string`,
+				`var gsl []*[]int`,
+				`var gif []*interface{}`,
+				`func aPt(p Pt) *Pt { return &p }`,
+				`func aPt2(p, q Pt) (*Pt, *Pt) { return &q, &p }`,
+				`func aStr(s string) *string { return &s }`,
+				`func aStrN(n int, s string) *string { t := s; { u := n; _ = u; return &t } }`,
+				`func aSl(xs []int) *[]int { return &xs }`,
+				`func aV(xs ...int) *[]int { return &xs }`,
+				`func aIf(v interface{}) *interface{} { return &v }`,
+				`func (p Pt) self() *Pt { return &p }`,
+				`func (p *Pt) cp() *Pt { q := *p; return &q }`,
+				`func two(i int) (string, Pt) { return "a" + string(rune('0'+i)), Pt{i, i * 2} }`,
+				`func three(i int) (Pt, []int, string) { return Pt{i + 7, 0}, []int{i}, "t" }`,
+				`func multi(n int) { for i := 0; i < n; i++ { s, p := two(i); gstr = append(gstr, &s); gpt = append(gpt, &p) } }`,
+				`func multi3(n int) { p, xs, s := three(n); gpt = append(gpt, &p); gsl = append(gsl, &xs); gstr = append(gstr, &s); var q Pt; var t string; q, t = Pt{n, n}, "v"; gpt = append(gpt, &q); gstr = append(gstr, &t) }`,
+				`func nres(n int) (r Pt, s string, pr *Pt, ps *string) { pr = &r; ps = &s; r.X = n; s = "n"; return }`,
+				`func loc(n int) { p := Pt{n, 1}; s := "l"; xs := []int{n, n}; gpt = append(gpt, &p); gstr = append(gstr, &s); gsl = append(gsl, &xs) }`,
+				fmt.Sprintf(`func main1() int { for r := 0; r < %d; r++ { gpt = append(gpt, aPt(Pt{r + 1, 2}), aPt(Pt{r + 3, 4})); a, b := aPt2(Pt{r + 5, 0}, Pt{r + 6, 0}); gpt = append(gpt, a, b, Pt{r + 8, 0}.self(), a.cp()); gstr = append(gstr, aStr("x"), aStr("yy"), aStrN(r, "zzz")); gsl = append(gsl, aSl([]int{r}), aSl([]int{r, r}), aV(r, 1, 2), aV()); gif = append(gif, aIf(r), aIf("s")); multi(2); multi3(r); _, _, pr, ps := nres(r + 20); gpt = append(gpt, pr); gstr = append(gstr, ps); loc(r + 30); churn(%d) }; h := rec(34); dup := 0; for i := range gpt { for j := range gpt { if i != j && gpt[i] == gpt[j] { dup++ } } }; for i := range gstr { for j := range gstr { if i != j && gstr[i] == gstr[j] { dup++ } } }; for i := range gsl { for j := range gsl { if i != j && gsl[i] == gsl[j] { dup++ } } }; for k := 0; k < 2; k++ { for _, q := range gpt { h = h*31 + q.X + q.Y; q.X += 5 }; for _, q := range gstr { h = h*31 + len(*q); *q += "+" }; for _, q := range gsl { h = h*31 + len(*q); *q = append(*q, 1) }; for _, q := range gif { if n, ok := (*q).(int); ok { h = h*31 + n; *q = n + 1 } else { h = h*31 + 7 } } }; return h*1000 + dup }`, p[0], p[1]),
+			}
+		}, [3][]int{{2, 5}, {0, 3}, {0}}},
 		{"arity", func(p [3]int) []string {
 			// one function per call specialisation: 0/1/2/3 parameters x 0/1/2 results, basic and non-basic kinds
 			return []string{
